@@ -306,6 +306,13 @@ class NFunc(object):
                     raise Unsupported("singular sum of linear operators")
                 return np.linalg.solve(A, b)
             raise Unsupported("zero of a sum of non-linear operators")
+        ops = [(w, f) for w, f in leaves if f.member.kind == "operator"]
+        inds = [(w, f) for w, f in leaves if isinstance(f.member, (M.BallIndicator, M.BoxIndicator))]
+        if ops and len(ops) + len(inds) == len(leaves) and len(inds) == 1 and all(isinstance(f.member, M.LinearMap) for w, f in ops):
+            xs = solve_vi(ops, inds[0][1].member)
+            w_i, f_i = inds[0]
+            f_i.forced[_key(xs)] = -sum(w * f.member.grad(xs) for w, f in ops) / w_i
+            return xs
         xs, duals = minimise_sum(leaves)
         # force the (sub)gradients of the non-smooth terms at xs so that the total (sub)gradient is zero
         smooth = [(w, f) for w, f in leaves if not f.member.multivalued]
@@ -337,6 +344,30 @@ class NTranspose(object):
 
     def gradient(self, u, name=None):
         return NPt(self.parent.member.tgrad(u.v))
+
+
+def solve_vi(ops, ind):
+    """x in C with <F(x), y - x> >= 0 for all y in C, F = sum of monotone linear maps: extragradient iteration."""
+    A = sum(w * f.member.M for w, f in ops)
+    b = sum(w * f.member.M @ f.member.c for w, f in ops)
+    S = (A + A.T) / 2
+    if np.linalg.eigvalsh(S).min() < -1e-10:
+        raise Unsupported("variational inequality with a non-monotone map")
+    F = lambda z: A @ z - b
+    Lc = max(np.linalg.norm(A, 2), 1e-12)
+    t = 0.5 / Lc
+    x = ind.project(np.zeros(A.shape[0]))
+    for it in range(200000):
+        y = ind.project(x - t * F(x))
+        xn = ind.project(x - t * F(y))
+        if np.linalg.norm(xn - x) < 1e-15 * (1 + np.linalg.norm(x)) and it > 10:
+            x = xn
+            break
+        x = xn
+    res = np.linalg.norm(x - ind.project(x - t * F(x)))
+    if res > 1e-11 * (1 + np.linalg.norm(x)):
+        raise Unsupported("variational inequality not solved to accuracy (residual %.2e)" % res)
+    return x
 
 
 def member_cvx(m, x):
@@ -584,6 +615,19 @@ def linear_optimization_step(dir, ind):
     return NPt(xv), NPt(-dir.v), NEx(0.0)
 
 
+def epsilon_subgradient_step(x0, f, gamma):
+    """g0 is an exact subgradient at a nearby point y, hence an eps-subgradient at x0 with
+    eps = f(x0) - f(y) - <g0, x0 - y> (the smallest eps for which it is one)."""
+    rng = CTX.choice_rng()
+    delta = CTX.scale * rng.choice([0.0, 0.05, 0.2, 0.5, 1.0])
+    u = np.array([rng.gauss(0, 1) for _ in range(len(x0.v))])
+    u = u / max(np.linalg.norm(u), 1e-12)
+    y = x0.v + delta * u
+    g0 = f._grad(y)
+    eps = f._value(x0.v) - f._value(y) - float(g0 @ (x0.v - y))
+    return NPt(x0.v - gamma * g0), NPt(g0), NEx(f._value(x0.v)), NEx(max(eps, 0.0))
+
+
 def _unsupported_step(*a, **kw):
     raise Unsupported("step not available numerically")
 
@@ -596,7 +640,7 @@ NUMERIC_STEPS = {
     "bregman_gradient_step": _unsupported_step,
     "bregman_proximal_step": _unsupported_step,
     "inexact_proximal_step": _unsupported_step,
-    "epsilon_subgradient_step": _unsupported_step,
+    "epsilon_subgradient_step": epsilon_subgradient_step,
 }
 
 
